@@ -20,16 +20,35 @@ Context (enc_graph : term -> pbval str -> TermEncoder SN -> outcome (list (pbval
 (* how it writes an encoded term into slot i of a statement message *)
 Context (put : Z -> wterm -> pbval str -> pbval str).
 
+Definition put_opt (i : Z) (w : option wterm) (stmt : pbval str) : pbval str :=
+  match w with Some w => put i w stmt | None => stmt end.
+
+Definition triple_msg (ws wp wo : option wterm) : pbval str :=
+  put_opt 2 wo (put_opt 1 wp (put_opt 0 ws (PMsg "RdfTriple" []))).
+
+Definition quad_msg (ws wp wo wg : option wterm) : pbval str :=
+  put_opt 3 wg (put_opt 2 wo (put_opt 1 wp (put_opt 0 ws (PMsg "RdfQuad" [])))).
+
+(* every row of the model as the message object the source builds for it *)
+Definition rmsg (r : row) : pbval str :=
+  match r with
+  | ROptions o => options_msg o
+  | RTriple ws wp wo => PMsg "RdfStreamRow" [("triple"%string, triple_msg ws wp wo)]
+  | RQuad ws wp wo wg => PMsg "RdfStreamRow" [("quad"%string, quad_msg ws wp wo wg)]
+  | RNamespace name p n => ns_msg name p n
+  | _ => msg_of_row r
+  end.
+
 Definition sim_spo : Prop := forall tm i stmt g m, Rt g m -> (0 <= i <= 2) ->
   match enc_spo tm i stmt g, E.encode_spo_term ig tm m with
-  | (Val rows, g', stmt'), Ok (m', mrows, w) => rows = map msg_of_row mrows /\ Rt g' m' /\ stmt' = put i w stmt
+  | (Val rows, g', stmt'), Ok (m', mrows, w) => rows = map rmsg mrows /\ Rt g' m' /\ stmt' = put i w stmt
   | (Exn _, _, _), Err _ => True
   | _, _ => False
   end.
 
 Definition sim_graph : Prop := forall tm stmt g m, Rt g m ->
   match enc_graph tm stmt g, E.encode_graph_term ig tm m with
-  | (Val rows, g', stmt'), Ok (m', mrows, w) => rows = map msg_of_row mrows /\ Rt g' m' /\ stmt' = put 3 w stmt
+  | (Val rows, g', stmt'), Ok (m', mrows, w) => rows = map rmsg mrows /\ Rt g' m' /\ stmt' = put 3 w stmt
   | (Exn _, _, _), Err _ => True
   | _, _ => False
   end.
@@ -37,9 +56,6 @@ Definition sim_graph : Prop := forall tm stmt g m, Rt g m ->
 Context (H_spo : sim_spo) (H_graph : sim_graph).
 
 Definition rlist (rp : E.repeated) : list (option term) := [E.r_s rp; E.r_p rp; E.r_o rp; E.r_g rp].
-
-Definition put_opt (i : Z) (w : option wterm) (stmt : pbval str) : pbval str :=
-  match w with Some w => put i w stmt | None => stmt end.
 
 Lemma differs_is (prev : option term) (tm : term) :
   negb (match prev with Some x_ => term_eqb x_ tm | None => false end) = E.differs prev tm.
@@ -50,7 +66,7 @@ Lemma slot_step (i : Z) (prev : option term) (tm : term) (stmt : pbval str) g m 
   match E.encode_slot ig prev tm m with
   | Ok (m', mrows, w, prev') =>
       if E.differs prev tm
-      then exists g' rows, enc_spo tm i stmt g = (Val rows, g', put_opt i w stmt) /\ rows = map msg_of_row mrows /\ Rt g' m' /\ prev' = Some tm
+      then exists g' rows, enc_spo tm i stmt g = (Val rows, g', put_opt i w stmt) /\ rows = map rmsg mrows /\ Rt g' m' /\ prev' = Some tm
       else m' = m /\ mrows = [] /\ w = None /\ prev' = prev
   | Err _ => E.differs prev tm = true /\ exists e g' s', enc_spo tm i stmt g = (Exn e, g', s')
   end.
@@ -60,7 +76,7 @@ Proof.
   - pose proof (H_spo tm i stmt g m HR Hi) as H.
     destruct (enc_spo tm i stmt g) as [[[rows|e] g'] stmt'];
       destruct (E.encode_spo_term ig tm m) as [[[m' mrows] w]|e']; try contradiction; cbn [bind].
-    + destruct H as (-> & HR' & ->). exists g', (map msg_of_row mrows).
+    + destruct H as (-> & HR' & ->). exists g', (map rmsg mrows).
       split; [reflexivity|]. split; [reflexivity|]. split; [exact HR' | reflexivity].
     + split; [reflexivity|]. exists e, g', stmt'. reflexivity.
   - split; [reflexivity|]. split; [reflexivity|]. split; reflexivity.
@@ -115,7 +131,7 @@ Ltac rows_eq := rewrite ?map_app; cbn [map app]; rewrite ?app_nil_r; rewrite <- 
 Lemma tie_encode_spo (terms : list term) (rp : E.repeated) (stmt : pbval str) g m : Rt g m ->
   match gen_spo terms g (rlist rp) stmt, spo_result terms rp m with
   | (Val rows, terms', g', rl', stmt'), Ok (m', rp', mrows, ws, wp, wo) =>
-      rows = map msg_of_row mrows /\ terms' = skipn 3 terms /\ Rt g' m' /\ rl' = rlist rp' /\
+      rows = map rmsg mrows /\ terms' = skipn 3 terms /\ Rt g' m' /\ rl' = rlist rp' /\
       stmt' = put_opt 2 wo (put_opt 1 wp (put_opt 0 ws stmt))
   | (Exn _, _, _, _, _), Err _ => True
   | _, _ => False
@@ -169,21 +185,12 @@ Proof.
       * split; [reflexivity|]. split; [reflexivity|]. split; [assumption|]. split; reflexivity.
 Qed.
 
-Definition triple_msg (ws wp wo : option wterm) : pbval str :=
-  put_opt 2 wo (put_opt 1 wp (put_opt 0 ws (PMsg "RdfTriple" []))).
-
-Definition quad_msg (ws wp wo wg : option wterm) : pbval str :=
-  put_opt 3 wg (put_opt 2 wo (put_opt 1 wp (put_opt 0 ws (PMsg "RdfQuad" [])))).
-
 (* encode_triple: a new statement, the three slots, then the statement row after the entry rows.  The
    iterator is left after the third term, the repeated terms are what the model keeps. *)
 Theorem source_encode_triple_is_model (terms : list term) (rp : E.repeated) g m : Rt g m ->
   match encode_triple SN term_eqb enc_spo terms g (rlist rp), E.encode_triple ig terms m rp with
   | (Val rows, terms', g', rl'), Ok (m', rp', mrows) =>
-      exists entries ws wp wo,
-        mrows = entries ++ [RTriple ws wp wo] /\
-        rows = map msg_of_row entries ++ [PMsg "RdfStreamRow" [("triple"%string, triple_msg ws wp wo)]] /\
-        Rt g' m' /\ rl' = rlist rp' /\ terms' = skipn 3 terms
+      rows = map rmsg mrows /\ Rt g' m' /\ rl' = rlist rp' /\ terms' = skipn 3 terms
   | (Exn _, _, _, _), Err _ => True
   | _, _ => False
   end.
@@ -207,14 +214,14 @@ Proof.
   match goal with |- context [encode_spo ?x1 ?x2 ?x3 ?x4 ?x5 ?x6 ?x7] => destruct (encode_spo x1 x2 x3 x4 x5 x6 x7) as [[[[[rows|e] terms'] g'] rl'] stmt'] end;
     destruct (spo_result terms rp (E.start_statement m)) as [[[[[[m' rp'] mrows] ws] wp] wo]|e']; try contradiction; cbn [bind]; [|exact I].
   destruct H as (-> & -> & HR' & -> & ->).
-  exists mrows, ws, wp, wo. split; [reflexivity|]. split; [reflexivity|]. split; [exact HR'|]. split; reflexivity.
+  split; [rewrite map_app; reflexivity|]. split; [exact HR'|]. split; reflexivity.
 Qed.
 
 Lemma gslot_step (prev : option term) (tm : term) (stmt : pbval str) g m : Rt g m ->
   match E.encode_gslot ig prev tm m with
   | Ok (m', mrows, w, prev') =>
       if E.differs prev tm
-      then exists g' rows, enc_graph tm stmt g = (Val rows, g', put_opt 3 w stmt) /\ rows = map msg_of_row mrows /\ Rt g' m' /\ prev' = Some tm
+      then exists g' rows, enc_graph tm stmt g = (Val rows, g', put_opt 3 w stmt) /\ rows = map rmsg mrows /\ Rt g' m' /\ prev' = Some tm
       else m' = m /\ mrows = [] /\ w = None /\ prev' = prev
   | Err _ => E.differs prev tm = true /\ exists e g' s', enc_graph tm stmt g = (Exn e, g', s')
   end.
@@ -224,7 +231,7 @@ Proof.
   - pose proof (H_graph tm stmt g m HR) as H.
     destruct (enc_graph tm stmt g) as [[[rows|e] g'] stmt'];
       destruct (E.encode_graph_term ig tm m) as [[[m' mrows] w]|e']; try contradiction; cbn [bind].
-    + destruct H as (-> & HR' & ->). exists g', (map msg_of_row mrows).
+    + destruct H as (-> & HR' & ->). exists g', (map rmsg mrows).
       split; [reflexivity|]. split; [reflexivity|]. split; [exact HR' | reflexivity].
     + split; [reflexivity|]. exists e, g', stmt'. reflexivity.
   - split; [reflexivity|]. split; [reflexivity|]. split; reflexivity.
@@ -233,10 +240,7 @@ Qed.
 Theorem source_encode_quad_is_model (terms : list term) (rp : E.repeated) g m : Rt g m ->
   match encode_quad SN term_eqb enc_spo enc_graph terms g (rlist rp), E.encode_quad ig terms m rp with
   | (Val rows, terms', g', rl'), Ok (m', rp', mrows) =>
-      exists entries ws wp wo wg,
-        mrows = entries ++ [RQuad ws wp wo wg] /\
-        rows = map msg_of_row entries ++ [PMsg "RdfStreamRow" [("quad"%string, quad_msg ws wp wo wg)]] /\
-        Rt g' m' /\ rl' = rlist rp' /\ terms' = skipn 4 terms
+      rows = map rmsg mrows /\ Rt g' m' /\ rl' = rlist rp' /\ terms' = skipn 4 terms
   | (Exn _, _, _, _), Err _ => True
   | _, _ => False
   end.
@@ -278,11 +282,9 @@ Proof.
   - destruct (E.differs (E.r_g rp) gt) eqn:Ed.
     + destruct Hs as (g4 & rows4 & Hcall & -> & HR4 & ->). norm. rewrite Hcall. cbn [bind].
       change (seq_set (rlist rp') 3 (Some gt)) with (@Val (list (option term)) [E.r_s rp'; E.r_p rp'; E.r_o rp'; Some gt]). cbv beta iota.
-      exists (mrows ++ r4), ws, wp, wo, wg.
-      split; [rewrite <- app_assoc; reflexivity|]. split; [rewrite map_app; reflexivity|]. split; [exact HR4|]. split; reflexivity.
+      split; [rewrite !map_app; rewrite <- app_assoc; reflexivity|]. split; [exact HR4|]. split; reflexivity.
     + destruct Hs as (-> & -> & -> & ->). cbn [bind].
-      exists mrows, ws, wp, wo, None.
-      split; [reflexivity|]. split; [reflexivity|]. split; [exact HR'|]. split; [|reflexivity].
+      split; [rewrite map_app; reflexivity|]. split; [exact HR'|]. split; [|reflexivity].
       unfold rlist. cbn [E.r_s E.r_p E.r_o E.r_g]. rewrite Hg. reflexivity.
   - destruct Hs as (Ed & e & g4 & s4 & Hcall). rewrite Ed. norm. rewrite Hcall. cbn [bind]. exact I.
 Qed.
